@@ -4360,7 +4360,7 @@ _trait_set_validate(trait_object *trait, PyObject *args)
 
             switch (kind) {
                 case 0: /* Type check: */
-                    if ((n <= 3)
+                    if ((n >= 2) && (n <= 3)
                         && PyType_Check(PyTuple_GET_ITEM(validate, n - 1))
                         && ((n == 2)
                             || (PyTuple_GET_ITEM(validate, 1) == Py_None))) {
@@ -4369,7 +4369,7 @@ _trait_set_validate(trait_object *trait, PyObject *args)
                     break;
 
                 case 1: /* Instance check: */
-                    if ((n <= 3)
+                    if ((n >= 2) && (n <= 3)
                         && ((n == 2)
                             || (PyTuple_GET_ITEM(validate, 1) == Py_None))) {
                         goto done;
